@@ -6,6 +6,7 @@ import SJ.Proofs.Number
 import SJ.Proofs.BlockScan
 import SJ.Generated.Consts
 import SJ.Proofs.Stage2Table
+import SJ.Proofs.GoNumber
 /-
 C01 — Parse accepts exactly the JSON grammar (object or array at the root).
 Theorems about the validators' tables; the statement about the whole parser is in progress (see DESIGN.md §7).
@@ -137,5 +138,30 @@ open SJ.TrimEdge in
 theorem C01_spec_ignores_edge_ws (l : List UInt8) (v : Spec.JVal) :
     Spec.containerText (jsonTrimL l) = .accept v ↔ Spec.containerText l = .accept v :=
   SJ.SpecTrim.containerText_trim_accept l v
+
+open SJ.GoSem SJ.Generated SJ.GoNumber in
+/-- **Source tie** (DESIGN §6.3). `isValidTrueAtom`, `isValidFalseAtom`, `isValidNullAtom` and `parseNumber`
+    (`parse_json_amd64.go`, `parse_number_amd64.go`) are printed from /repo as syntax trees on every run; their meaning
+    under `GoSem.exec` — the little-endian word comparison with its mask, the length guards, the look-up of the follow
+    byte, the digit loops, `strconv.ParseFloat`/`ParseInt`/`ParseUint` by contract — is, for every buffer, every start
+    position and every amount of fuel, exactly the `isValidTrueAtom`/… /`parseNumber` of the hand model used by
+    `C01_parse_iff`: the Go code returns tag 0 exactly when the model rejects the literal, and the same tag and value
+    word otherwise. The tape is not touched and the trees are never stuck and never out of fuel. -/
+theorem C01_atoms_and_numbers_follow_source (buf : Bytes) (start : Nat) (fuel : Nat) (tape : Array UInt64) :
+    (∃ s, runFun goFuns goisValidTrueAtom fuel ⟨[("buf", .bytes (buf.extract start buf.size))], tape⟩ =
+        .ret s [.bool (isValidTrueAtom buf start)] ∧ s.tape = tape) ∧
+    (∃ s, runFun goFuns goisValidFalseAtom fuel ⟨[("buf", .bytes (buf.extract start buf.size))], tape⟩ =
+        .ret s [.bool (isValidFalseAtom buf start)] ∧ s.tape = tape) ∧
+    (∃ s, runFun goFuns goisValidNullAtom fuel ⟨[("buf", .bytes (buf.extract start buf.size))], tape⟩ =
+        .ret s [.bool (isValidNullAtom buf start)] ∧ s.tape = tape) ∧
+    (∃ s, runFun goFuns goparseNumber fuel ⟨[("buf", .bytes (buf.extract start buf.size))], tape⟩ =
+        .ret s (enc (parseNumber buf start)) ∧ s.tape = tape) ∧
+    (∀ id val, parseNumber buf start = some (id, val) ↔
+      id ≠ 0 ∧ ∃ s, runFun goFuns goparseNumber fuel ⟨[("buf", .bytes (buf.extract start buf.size))], tape⟩ =
+        .ret s [.u64 id, .u64 val]) ∧
+    (parseNumber buf start = none ↔
+      ∃ s, runFun goFuns goparseNumber fuel ⟨[("buf", .bytes (buf.extract start buf.size))], tape⟩ =
+        .ret s [.u64 0, .u64 0]) :=
+  go_number_source_tie buf start fuel tape
 
 end SJ.Properties.C01
